@@ -131,6 +131,13 @@ class Interp(Ops, B.BuiltinsMixin):
             raise KeyError(name)
         if kind[0] == "func":
             v = self.make_function(kind[1], m, None, None, f"{modname}:{name}")
+            if getattr(kind[1], "decorator_list", None):
+                # module-level decorators (functools.lru_cache / cache, contextmanager, joblib.delayed ...) change what the name means
+                try:
+                    mfr = Frame(None, m)
+                    v = self.apply_decorators(kind[1], v, mfr)
+                except (Unsupported, PyExc, KeyError):
+                    self.inlined.add(f"decorator(s) of {modname}:{name} not modelled: the undecorated function is used")
         elif kind[0] == "class":
             v = self.make_class(kind[1], m)
         elif kind[0] == "import":
